@@ -57,3 +57,19 @@ V("c07-layer-split-tau", "break", ["C07"], (MD, "        input, skip = U.residua
 V("c07-decoder-drop", "break", ["C07"], (MD, "            dropout_p=dropout_p,\n            residual_scaling=residual_scaling,\n        )", "            dropout_p=dropout_p,\n        )"))
 V("c07-keep-form", "keep", ["C07"], (CF, "        n_attn = (index + 1) // 2\n        n_mlp = index // 2", "        n_mlp = index // 2\n        n_attn = index - n_mlp"))
 V("c07-keep-layer-names", "keep", ["C07"], (MD, "        input, skip = U.residual_split(input, tau=self.mlp_tau)\n        input = self.mlp_norm(input)\n        input = self.mlp(input)\n        input = U.dropout(input, self.dropout_p, self.training)\n        return U.residual_add(input, skip, tau=self.mlp_tau)", "        branch, skip2 = U.residual_split(input, self.mlp_tau)\n        branch = self.mlp(self.mlp_norm(branch))\n        branch = U.dropout(branch, p=self.dropout_p, training=self.training)\n        return U.residual_add(branch, skip2, self.mlp_tau)"))
+
+# ---------------------------------------------------------------- C05
+CO = "unit_scaling/constraints.py"
+V("c05-linear-wrong-pair", "break", ["C05"], (FN, "    output_scale, grad_input_scale = apply_constraint(\n        constraint, output_scale, grad_input_scale\n    )\n\n    input = scale_bwd(input, grad_input_scale)\n    weight = scale_bwd(weight, grad_weight_scale)\n    bias = scale_bwd(bias, grad_bias_scale) if bias is not None else None\n    output = F.linear", "    output_scale, grad_weight_scale = apply_constraint(\n        constraint, output_scale, grad_weight_scale\n    )\n\n    input = scale_bwd(input, grad_input_scale)\n    weight = scale_bwd(weight, grad_weight_scale)\n    bias = scale_bwd(bias, grad_bias_scale) if bias is not None else None\n    output = F.linear"), expect="linear")
+V("c05-matmul-fwd-only", "break", ["C05"], (FN, "    output_scale, left_grad_scale, right_grad_scale = apply_constraint(\n        constraint, output_scale, left_grad_scale, right_grad_scale\n    )", "    output_scale, _l, _r = apply_constraint(\n        constraint, output_scale, left_grad_scale, right_grad_scale\n    )"), expect="matmul")
+V("c05-matmul-order", "break", ["C05"], (FN, "        constraint, output_scale, left_grad_scale, right_grad_scale\n    )", "        constraint, output_scale, right_grad_scale, left_grad_scale\n    )"))
+V("c05-unknown-returns", "break", ["C05"], (CO, "    if constraint is None:\n        raise ValueError(\n            f\"Constraint: {constraint_name} is not a valid constraint (see\"\n            \" unit_scaling.constraints for available options).\"\n        )", "    if constraint is None:\n        return scales"), expect="unknown-name")
+V("c05-hmean", "break", ["C05"], (CO, "    return 1 / (sum(1 / s for s in scales) / len(scales))", "    return 1 / (sum(s for s in scales) / len(scales))"), expect="hmean")
+V("c05-gmean", "break", ["C05"], (CO, "    return pow(prod(scales), (1 / len(scales)))", "    return pow(prod(scales), 0.5)"))
+V("c05-per-scale", "break", ["C05"], (CO, "    scale = constraint(*scales)\n    return tuple(scale for _ in scales)", "    return tuple(constraint(s, s) for s in scales)"))
+V("c05-selector", "break", ["C05"], (CO, "    return left_grad_scale\n", "    return right_grad_scale\n"))
+V("c05-elementwise", "break", ["C05"], (CF, "    output_scale, grad_input_scale = apply_constraint(\n        constraint, output_scale, grad_input_scale\n    )\n\n    def scaled_f", "    output_scale, _ = apply_constraint(\n        constraint, output_scale, grad_input_scale\n    )\n\n    def scaled_f"))
+V("c05-new-leak", "break", ["C05"], (CO, "from math import pow, prod", "from math import pow, prod, log"), expect="lookup-domain[log]")
+V("c05-add-ignore", "break", ["C05"], (FN, "    output_scale, input_grad_scale, other_grad_scale = apply_constraint(\n        constraint, output_scale", "    output_scale, input_grad_scale, other_grad_scale = apply_constraint(\n        None, output_scale"))
+V("c05-keep-amean", "keep", ["C05"], (CO, "    return sum(scales) / len(scales)", "    n = len(scales)\n    return sum(s / n for s in scales)"))
+V("c05-keep-tuple", "keep", ["C05"], (CO, "    return tuple(scale for _ in scales)", "    return (scale,) * len(scales)"))
